@@ -144,7 +144,6 @@ class Machine(object):
     # -- the oracles ---------------------------------------------------------
     def check_all(self, when):
         mdl = self.model
-        want = mdl.expected()
         # A. the directory holds exactly the files the model knows, byte for byte
         disk = self.disk()
         if sorted(disk) != sorted(mdl.files):
@@ -155,6 +154,18 @@ class Machine(object):
             if disk[name] != mdl.files[name]:
                 self.stop('file_bytes_changed', 'file %s differs from what the history produced' % name,
                           file=name)
+        # B0. values of 'wild' pairs are whatever a fresh read says they are
+        if mdl.wild and mdl.bound in mdl.files:
+            try:
+                with warnings.catch_warnings():
+                    warnings.simplefilter('ignore')
+                    fresh0 = self.ymod.yanny(self.path(mdl.bound))
+                    for k in mdl.wild:
+                        if k in fresh0.pairs():
+                            mdl.wild[k] = fresh0[k]
+            except Exception as e:
+                self.stop('fresh_read_raises', 'raw=False %s: %s' % (type(e).__name__, e))
+        want = mdl.expected()
         # C. object = model
         try:
             got = M.observe(self.obj, mdl)
@@ -377,6 +388,7 @@ class Machine(object):
         data = collections.OrderedDict()
         added_rows = []
         added_pairs = []
+        mdl_wild_new = []
         extra = [st.get('case'), st.get('form')]
         # pairs first or tables first in the dict: the order inside the *file* is the
         # library's business (pairs, then tables in table order); the model appends
@@ -386,6 +398,8 @@ class Machine(object):
                 continue
             data[k] = v
             added_pairs.append([k, str(v)])
+            if k.startswith('wk'):
+                mdl_wild_new.append(k)
         for ti, rows in sorted(st.get('rows', {}).items(), key=lambda kv: int(kv[0])):
             ti = int(ti)
             if ti >= len(mdl.tables) or not rows:
@@ -430,6 +444,9 @@ class Machine(object):
         for t, rows in added_rows:
             t['rows'].extend([list(r) for r in rows])
         mdl.pairs.extend(added_pairs)
+        for k in mdl_wild_new:
+            mdl.wild[k] = dict(added_pairs)[k]
+            self.probes['append_pair_value_the_format_cannot_carry'] += 1
         # reach probes
         p = self.probes
         p['append_ok'] += 1
